@@ -197,3 +197,20 @@ def register(w):
         out["paths"], out["time"] = 1, time.time() - t0
         return out
     w.add_contract(Contract(f"{MU}:<bounded-custom-names>", kind="custom", custom=bounded_names, props=["C05"], witnesses=["C05_custom_names_family"]))
+
+    # ---- bounded stand-in: the element-type reconciliation of add_outputs_from_vars (which output gets a Cast back to the JAX type)
+    def bounded_out_types(world, c, out):
+        import time
+        from pyvc.run import run_witness
+        t0 = time.time()
+        holds, detail = run_witness("C05_output_integer_types_family", timeout=1500)
+        d = {"oid": "jax2onnx.converter.ir_context:IRContext.add_outputs_from_vars#bounded:declared_integer_and_bool_output_types_are_the_jax_type_or_int64", "kind": "bounded",
+             "status": "discharged" if holds else ("refuted" if holds is False else "unknown"), "backend": "enumerated", "time": time.time() - t0, "instances": 1, "trivial": 0,
+             "bounded": "12 programs (scan with narrow-integer carries/stacked outputs, argmax, comparisons, int8/uint16/int16 arithmetic, clip, where, float16, casts) x host x64 flag off/on x enable_double_precision off/on; compared with jax.eval_shape at the export's precision",
+             "note": f"the dtype branch of add_outputs_from_vars is not under contract (only order / one output per leaf is); the real export is run on an enumerated family; {detail}"[:500]}
+        if holds is False:
+            d.update(args={"witness": "C05_output_integer_types_family"}, replay={"reproduced": True, "detail": detail}, formula="", model=detail)
+        out["obls"].append(d)
+        out["paths"], out["time"] = 1, time.time() - t0
+        return out
+    w.add_contract(Contract("jax2onnx.converter.ir_context:<bounded-output-types>", kind="custom", custom=bounded_out_types, props=["C05"], witnesses=["C05_output_integer_types_family"]))
